@@ -4,7 +4,6 @@ import (
 	"fmt"
 	"go/token"
 
-
 	"gzverify/px"
 )
 
